@@ -305,6 +305,8 @@ fn build_files(scn: &Scn, streams: &[(u8, Vec<u8>)], lay: &Layout) -> (Vec<Midas
                 0 => 0,
                 1 => r.usize(1, 3),
                 2 => 4 * r.usize(1, 8),
+                // a bank of exactly the size of one / two scalers blocks (61 / 122 words), wherever it starts
+                3 if lay.max_bank >= 64 => 244 * r.usize(1, 2),
                 _ => r.usize(1, lay.max_bank.max(1)),
             }
             .min(s.len() - p);
